@@ -4,6 +4,7 @@
    model (which equals the real parser on every generated input of the tie, full AST and error
    positions); one machine-checked witness per known class. *)
 From HL Require Import Lib.Bytes Model.Ast Lib.Dec Model.Lexer Model.Parser Spec.Grammar Proofs.C03Proofs Proofs.LexerProofs.
+From HL Require Import Proofs.ParserProofs.
 Open Scope N_scope.
 
 Theorem C03_baseline_is_faithful :
@@ -52,3 +53,8 @@ Print Assumptions C03_lex_total.
 Theorem C03_plain_numbers_kept : forall s, count_byte 46 s = O -> count_byte 44 s = O -> normalize_number s = s.
 Proof. exact normalize_plain. Qed.
 Print Assumptions C03_plain_numbers_kept.
+
+(* every text, supported or not, is parsed to some journal: the parser never runs out of fuel *)
+Theorem C03_parse_total : forall input : list N, parse input <> None.
+Proof. exact parse_total. Qed.
+Print Assumptions C03_parse_total.
